@@ -904,6 +904,9 @@ func (c *Ctx) panicPrimitiveCall(ci ssa.CallInstruction) bool {
 	return n == "logx.Panic" || n == "logx.PanicOnError" || n == "builtin.panic"
 }
 
+// reviewedAsserts: unchecked type assertions that cannot fail, with the reason.
+var reviewedAsserts = map[string]string{}
+
 func ruleMust(c *Ctx) {
 	var fns []*ssa.Function
 	for _, fn := range c.repoFuncs() {
@@ -926,6 +929,37 @@ func ruleMust(c *Ctx) {
 				return true
 			})
 		}
+	}
+	// unchecked type assertions `x.(T)` panic when the dynamic type differs: none may be applied to parsed input
+	nAssert := 0
+	for _, fn := range fns {
+		if strings.HasSuffix(c.Fset.PositionFor(fn.Pos(), false).Filename, "_generated.go") {
+			continue
+		}
+		allInstrs(fn, func(in ssa.Instruction) {
+			ta, ok := in.(*ssa.TypeAssert)
+			if !ok || ta.CommaOk || !ta.Pos().IsValid() {
+				return
+			}
+			if types.Identical(ta.AssertedType, ta.X.Type()) {
+				return // go/ssa's nil check of an interface method value, not an assertion written in the source
+			}
+			if it, ok := ta.AssertedType.Underlying().(*types.Interface); ok && types.Implements(ta.X.Type(), it) {
+				return // widening to an interface the static type already implements (method value through an embedded interface)
+			}
+			nAssert++
+			c.site(1)
+			key := "assert|" + fname(fn) + "|" + typeName(ta.AssertedType)
+			if why, ok := reviewedAsserts[key]; ok {
+				c.ok(key, c.pos(ta.Pos()), fname(fn), "reviewed: "+why)
+			} else {
+				c.bad(key, c.pos(ta.Pos()), fname(fn), fmt.Sprintf("unchecked type assertion to %s: a value of another dynamic type (e.g. a rest where a chord is expected) makes crd panic with a stack trace instead of reporting an error; use the two-value form", typeName(ta.AssertedType)))
+			}
+		})
+	}
+	if nAssert == 0 {
+		c.site(1)
+		c.ok("assert|none", "", "", "no unchecked type assertion in hand-written code")
 	}
 	// P0: functions that reach a panic primitive directly
 	p0 := map[string]*ssa.Function{}
